@@ -64,6 +64,25 @@ Theorem T2_repeat_nil_valid : forall p b ds,
 Proof. exact repeat_nil_valid. Qed.
 Print Assumptions T2_repeat_nil_valid.
 
+(** (b) weights multiply: the multiplicity of a combination in a crossing of the normal form is
+    the product of the weights of its levels ([combo_weight]) x crossing weight x sustain *)
+Theorem T2_all_combos_weight : forall p cr d combo w,
+  all_combos p cr = Ok d -> In (combo, w) d -> combo_weight p cr combo = Ok w.
+Proof. exact all_combos_weight. Qed.
+Print Assumptions T2_all_combos_weight.
+
+Theorem T2_crossing_multiplicity : forall p bd forder maxp c dc idx m,
+  sem_crossing p bd forder maxp c = Ok dc -> In (idx, m) (c_mult dc) ->
+  exists combo w, In (combo, w) (x_combos c) /\ m = w * x_cw c * x_su c.
+Proof. exact crossing_multiplicity. Qed.
+Print Assumptions T2_crossing_multiplicity.
+
+Theorem T2_crossing_multiplicity_rcc : forall p d ex cr x bd forder maxp dc idx m,
+  doc_crossing p d ex true cr = Ok x -> sem_crossing p bd forder maxp x = Ok dc -> In (idx, m) (c_mult dc) ->
+  exists combo w, combo_weight p cr combo = Ok w /\ m = w * x_cw x * x_su x.
+Proof. exact crossing_multiplicity_rcc. Qed.
+Print Assumptions T2_crossing_multiplicity_rcc.
+
 (** the hypotheses are satisfiable: the Stroop design of the guide (colour x word crossed, a
     within-trial congruency factor with an else-level, AtMostKInARow(1, congruent)) *)
 Local Open Scope string_scope.
